@@ -49,6 +49,8 @@ pub struct RunResult {
     pub parse_failures: u64,
     pub noop_mutations: u64,
     pub outcomes: Vec<String>,
+    #[serde(default)]
+    pub known_hits: Vec<String>,
 }
 
 #[derive(Clone, Debug, Serialize, Deserialize)]
@@ -113,6 +115,9 @@ pub struct Runner {
     pub diverged: Option<String>,
     pub kinds_seq: Vec<&'static str>,
     pub record_to: Option<std::fs::File>,
+    /// Signatures listed in known_findings.json for this property.
+    pub known: BTreeSet<String>,
+    pub known_hits: BTreeSet<String>,
 }
 
 impl Runner {
@@ -127,6 +132,8 @@ impl Runner {
             diverged: None,
             kinds_seq: vec![],
             record_to: None,
+            known: crate::supervisor::load_known().known.into_iter().filter(|k| k.0 == prop).map(|k| k.1).collect(),
+            known_hits: BTreeSet::new(),
         })
     }
 
@@ -225,18 +232,29 @@ impl Runner {
         let failed: Vec<Obs> = std::mem::take(&mut w.failed);
         for o in &failed {
             if self.owned.contains(&o.class) {
-                if self.violation.is_none() {
+                let signature = format!("{}/{}/{}", self.prop, o.class.name(), o.what);
+                if self.known.contains(&signature) {
+                    // A listed finding: reported once by the supervisor, never a violation. The
+                    // run goes on unless the observation means SUT and model have diverged.
+                    self.known_hits.insert(signature.clone());
+                    if o.class.diverging() && self.diverged.is_none() {
+                        self.diverged = Some(format!("known-finding {signature}"));
+                    }
+                } else if self.violation.is_none() {
                     self.violation = Some(Violation {
                         property: self.prop.clone(),
-                        signature: format!("{}/{}/{}", self.prop, o.class.name(), o.what),
+                        signature,
                         at_event: idx,
                         detail: o.detail.clone(),
                     });
                 }
             }
         }
-        if self.violation.is_none() {
+        if self.violation.is_none() && self.diverged.is_none() {
             for o in &failed {
+                if self.owned.contains(&o.class) {
+                    continue;
+                }
                 if o.class.diverging() {
                     self.diverged = Some(format!("{}/{}", o.class.name(), o.what));
                     break;
@@ -292,6 +310,7 @@ impl Runner {
             parse_failures: w.stats.parse_failures,
             noop_mutations: w.stats.noop_mutations,
             outcomes: w.outcomes.clone(),
+            known_hits: self.known_hits.iter().cloned().collect(),
         };
         (res, self.trace)
     }
@@ -392,6 +411,7 @@ fn mut_kind(m: &HostileMut) -> String {
             format!("count-field={mag}")
         }
         HostileMut::Extend { .. } => "extension".into(),
+        HostileMut::Empty { which } => format!("emptied-list-{which}"),
     }
 }
 
@@ -449,6 +469,9 @@ pub fn hostile_bytes(w: &World, target: &HostileTarget, mutation: &HostileMut, p
             b = nb;
         }
         HostileMut::Extend { bytes } => b.extend_from_slice(bytes),
+        HostileMut::Empty { which } => {
+            b = faults::emptied(src_kind, &b, *which)?;
+        }
     }
     Some(b)
 }
@@ -465,6 +488,7 @@ pub fn ev_hostile(w: &mut World, target: &HostileTarget, mutation: &HostileMut, 
         HostileMut::FlipBit { .. } => "hostile-bit-flip",
         HostileMut::Field { .. } => "hostile-count-field",
         HostileMut::Extend { .. } => "hostile-extension",
+        HostileMut::Empty { .. } => "hostile-emptied-list",
     });
     let pk = parser_kind(parser);
     let mk = mut_kind(mutation);
@@ -472,7 +496,7 @@ pub fn ev_hostile(w: &mut World, target: &HostileTarget, mutation: &HostileMut, 
     let start = CUR.load(Ordering::Relaxed);
     PEAK.store(start, Ordering::Relaxed);
     LARGEST.store(0, Ordering::Relaxed);
-    let budget = 64 * bytes.len() + (256 << 10);
+    let budget = 512 * bytes.len() + (1 << 20);
     let users: Vec<usize> = (0..w.users.len()).filter(|u| w.users[*u].usk.is_some()).take(3).collect();
     let slots: Vec<usize> = (0..w.slots.len()).filter(|s| w.slots[*s].kind == SlotKind::Kem).take(3).collect();
     let mut stage = "parse";
@@ -559,8 +583,8 @@ pub fn ev_hostile(w: &mut World, target: &HostileTarget, mutation: &HostileMut, 
     if peak > budget {
         w.fail(
             Class::Hostile,
-            format!("over-allocation/{pk}/{mk}"),
-            format!("peak {peak} bytes (largest request {largest}) for {} input bytes, budget {budget}", bytes.len()),
+            format!("over-allocation/{pk}"),
+            format!("{mk}: peak {peak} bytes (largest request {largest}) for {} input bytes, budget {budget}", bytes.len()),
         );
     }
 }
